@@ -1,7 +1,7 @@
 CHECK = {
     "lean_module": "MidnightZK.Props.C07",
     "harness": "h-c07",
-    "translators": ["c07_poseidon"],
+    "translators": ["c07_poseidon", "c07_sha"],
     "level": "proof",
     "rule": "every message length of the boundary list for each byte hash; every actual length 0..MAX of each "
             "var-len vector with zero and adversarial filler; Poseidon input lengths 0..12; distinctness by hash "
